@@ -48,6 +48,7 @@ def run(ctx):
                 core.leanchecker(ctx, ["ButlerModel.Props.C06"])
     with repo.Scratch("verif-c06-") as tmp:
         joins(ctx, built, tmp)
+        big_join(ctx, built, tmp)
 
 
 def val(el, rec, dim):
@@ -200,6 +201,15 @@ def joins(ctx, model_ok, tmp):
                     except Exception as e:
                         got = f"{type(e).__name__}: {str(e)[:100]}"
                     results[(mode, api)] = got
+            if G in spatial_groups or rng.random() < 0.15:
+                # the same relation read back from a materialised query (a temporary table), whole and projected
+                try:
+                    with butlers["insert"].query() as q:
+                        m = q.join_dimensions(list(G)).materialize()
+                        results[("insert", "materialize")] = {tuple(d.mapping[x] for x in order) for d in m.data_ids(list(G))}
+                        ctx.count("materialize")
+                except Exception as e:
+                    results[("insert", "materialize")] = f"{type(e).__name__}: {str(e)[:100]}"
             for (mode, api), got in results.items():
                 if got != want:
                     extra = sorted(got - want, key=repr)[:2] if isinstance(got, set) else got
@@ -237,6 +247,98 @@ def joins(ctx, model_ok, tmp):
                     ctx.broken.append(f"correspondence: `{line[:120]}` model={m[:200]} implementation={i[:200]}")
         ctx.extra["correspondence_lines"] = len(req)
         ctx.extra["correspondence_disagreements"] = nd
+
+
+def big_join(ctx, model_ok, tmp):
+    """A spatial join whose candidate set (pairs sharing a common-skypix cell) runs to several result pages and holds many
+    near misses: visits are 2x2-degree footprints shrunk by 0.2 degrees on a 1-degree patch grid, so each overlaps exactly the
+    four patches under it while sharing cells with the ring of patches around them."""
+    from lsst import sphgeom
+    from lsst.daf.butler import Butler
+
+    rng = ctx.rng
+    root = os.path.join(tmp, "big")
+    Butler.makeRepo(root)
+    b = Butler.from_config(root, writeable=True)
+    reg = b.registry
+    nx = 10
+    nv = 320 if ctx.quick() else 1500
+    reg.insertDimensionData("instrument", {"name": "I"})
+    reg.insertDimensionData("physical_filter", {"instrument": "I", "name": "f", "band": "r"})
+    reg.insertDimensionData("day_obs", {"instrument": "I", "id": 20250101})
+    reg.insertDimensionData("skymap", {"name": "S", "hash": b"S" * 4, "tract_max": 2, "patch_nx_max": nx, "patch_ny_max": nx})
+    reg.insertDimensionData("tract", {"skymap": "S", "id": 0, "region": dimpop.box(0, 0, nx, nx)})
+    patches = {}
+    for x in range(nx):
+        for y in range(nx):
+            patches[x * nx + y] = (x, y, x + 1, y + 1)
+    reg.insertDimensionData("patch", *[{"skymap": "S", "tract": 0, "id": k, "cell_x": k // nx, "cell_y": k % nx, "region": dimpop.box(*r)} for k, r in patches.items()])
+    visits = {}
+    for v in range(1, nv + 1):
+        x, y = rng.randint(0, nx - 2), rng.randint(0, nx - 2)
+        visits[v] = (x + 0.2, y + 0.2, x + 1.8, y + 1.8) if rng.random() < 0.97 else None
+    recs = [{"instrument": "I", "id": v, "name": f"v{v}", "physical_filter": "f", "day_obs": 20250101, "region": dimpop.box(*r) if r else None} for v, r in visits.items()]
+    rng.shuffle(recs)
+    for i in range(0, len(recs), 57):
+        reg.insertDimensionData("visit", *recs[i:i + 57])
+    want = set()
+    near = 0
+    for v, r in visits.items():
+        if r is None:
+            continue
+        pv = dimpop.box(*r)
+        for k, pr in patches.items():
+            if abs(pr[0] - r[0]) < 3 and abs(pr[1] - r[1]) < 3:
+                if not (pv.relate(dimpop.box(*pr)) & sphgeom.DISJOINT):
+                    want.add((k, v))
+                else:
+                    near += 1
+    ctx.extra["big_join"] = {"visits": nv, "patches": len(patches), "overlapping_pairs": len(want), "disjoint_neighbours": near}
+
+    def viol(what, key, replay):
+        ctx.violations.append(core.Violation(what=what, key=key, replay=replay))
+
+    results = {}
+    try:
+        results["query_data_ids"] = {(d["patch"], d["visit"]) for d in b.query_data_ids(["visit", "patch"], explain=False, limit=None)}
+    except Exception as e:
+        results["query_data_ids"] = f"{type(e).__name__}: {str(e)[:100]}"
+    try:
+        results["queryDataIds"] = {(d["patch"], d["visit"]) for d in reg.queryDataIds(["visit", "patch"])}
+    except Exception as e:
+        results["queryDataIds"] = f"{type(e).__name__}: {str(e)[:100]}"
+    try:
+        with b.query() as q:
+            m = q.join_dimensions(["visit", "patch"]).materialize()
+            results["materialize"] = {(d["patch"], d["visit"]) for d in m.data_ids(["visit", "patch"])}
+            results["materialize-projected"] = {(d["visit"],) for d in m.data_ids(["visit"])}
+            results["ordered-pages"] = {(d["patch"], d["visit"]) for d in q.data_ids(["visit", "patch"]).order_by("visit", "patch")}
+            results["where-half"] = {(d["patch"], d["visit"]) for d in q.data_ids(["visit", "patch"]).where(f"visit > {nv // 2}")}
+    except Exception as e:
+        results.setdefault("materialize", f"{type(e).__name__}: {str(e)[:100]}")
+    wants = {"materialize-projected": {(v,) for _, v in want}, "where-half": {(k, v) for k, v in want if v > nv // 2}}
+    for api, got in results.items():
+        ctx.evaluations += 1
+        ctx.count("big-join:" + api)
+        w = wants.get(api, want)
+        if got != w:
+            extra = sorted(got - w)[:3] if isinstance(got, set) else got
+            missing = sorted(w - got)[:3] if isinstance(got, set) else ""
+            viol(f"{api} over visit x patch on {nv} visits and {len(patches)} patches returns {len(got) if isinstance(got, set) else got} pairs, the stored regions "
+                 f"allow {len(w)}; not allowed but returned: {extra}; allowed but missing: {missing}", f"c06:big:{api}", {"kind": "big-join", "api": api})
+    if want and near:
+        ctx.nontrivial.add(("big", nv))
+    if model_ok and isinstance(results.get("query_data_ids"), set):
+        # the model on the same tables: patch(skymap, tract, patch), visit(instrument, visit), overlap(patch, visit)
+        toks = ["jn", "run", "OUT", "1,2", "T", "1"] + [x for k in sorted(patches) for x in ("R", str(k + 1))]
+        toks += ["T", "2"] + [x for v in sorted(visits) for x in ("R", str(v))]
+        toks += ["T", "1,2"] + [x for k, v in sorted(want) for x in ("R", f"{k + 1},{v}")]
+        out = core.driver([" ".join(toks)])[0]
+        impl = ";".join(f"{k + 1}.{v}" for k, v in sorted(results["query_data_ids"])) or "-"
+        if out != impl:
+            ctx.broken.append(f"correspondence: big join: model returns {len(out.split(';'))} rows, implementation {len(impl.split(';'))}")
+        ctx.extra["big_join_correspondence"] = out == impl
+    del b
 
 
 def replay(ctx, content):
